@@ -358,9 +358,11 @@ impl<'a> WrappedLogosLexer<'a> {
     fn post_process_block_comment(block_comment: &str) -> String {
       block_comment
         .split('\n')
-        .map(|line| {
+        .enumerate()
+        .map(|(index, line)| {
           let l = line.trim_start();
-          if l.starts_with('*') {
+          // Only continuation lines carry a decoration star; what follows `/*` on its own line is text.
+          if index > 0 && l.starts_with('*') {
             l.chars().skip(1).collect::<String>().trim().to_string()
           } else {
             l.trim_end().to_string()
